@@ -157,9 +157,17 @@ package meta
 //@ trusted func Compile
 //@   ensures result1 == nil ==> result0 != nil && parses(pattern, 212) && !result0.longest && result0.pikevm != nil && fresh(result0) && fresh(result0.pikevm) && (result0.boundedBacktracker != nil ==> fresh(result0.boundedBacktracker))
 //@   ensures !parses(pattern, 212) ==> result1 != nil
-//@ trusted func CompileRegexp
+// CompileRegexp: verified for the wiring invariants below; what it says about the engines it builds is assumed
+//@ func CompileRegexp
+//@   props C17 C19
 //@   requires re != nil
-//@   ensures result1 == nil ==> result0 != nil && !result0.longest && result0.pikevm != nil && fresh(result0) && fresh(result0.pikevm) && (result0.boundedBacktracker != nil ==> fresh(result0.boundedBacktracker))
+//@   trust ensures result1 == nil ==> result0 != nil && !result0.longest && result0.pikevm != nil && fresh(result0) && fresh(result0.pikevm) && (result0.boundedBacktracker != nil ==> fresh(result0.boundedBacktracker))
+//@   ensures result1 == nil ==> !(result0.prefilter != nil && result0.prefilterPartialCoverage)
+//@   ensures result1 == nil && result0.strategy == UseAnchoredLiteral ==> alInfoOK(result0.anchoredLiteralInfo)
+//@   ensures result1 == nil && result0.strategy == UseAnchoredLiteral ==> alEnds2(re, result0.anchoredLiteralInfo)
+//@   ensures result1 == nil && result0.strategy == UseAnchoredLiteral ==> (exists w :: 1 <= w && w < len(re.Sub) - 2 && isWild(re.Sub[w]))
+//@   ensures result1 == nil && result0.strategy == UseAnchoredLiteral ==> alAllShape(re, result0.anchoredLiteralInfo)
+//@   loop 1: invariant -1 <= rangeindex && rangeindex < rangelen
 // regexp/syntax bounds the height of every tree it returns by 1000; the default configuration must let the NFA
 // compiler descend that far, otherwise Compile rejects patterns regexp accepts
 //@ func DefaultConfig
@@ -262,13 +270,16 @@ package meta
 //@ spec func litBytes(out []byte, r *syntax.Regexp) bool = ((forall k :: 0 <= k && k < len(r.Rune) ==> r.Rune[k] < 128) ==> len(out) == len(r.Rune) && (forall k :: 0 <= k && k < len(r.Rune) ==> out[k] == r.Rune[k])) && (len(r.Rune) == 1 ==> len(out) == u8w(r.Rune[0]) && (forall j :: 0 <= j && j < len(out) ==> out[j] == u8b(r.Rune[0], j)))
 //@ spec func astOK(re *syntax.Regexp) bool = re != nil && len(re.Sub) <= 1000000 && (forall k :: 0 <= k && k < len(re.Sub) ==> runesOK(re.Sub[k]) && len(re.Sub[k].Sub) <= 1000000 && (forall m :: 0 <= m && m < len(re.Sub[k].Sub) ==> runesOK(re.Sub[k].Sub[m])))
 //@ spec func alShape(re *syntax.Regexp, w int, info *AnchoredLiteralInfo) bool = (forall i :: 1 <= i && i < w ==> isLit(re.Sub[i])) && info.WildcardMin == ite(re.Sub[w].Op == 15, 1, 0) && (info.WildcardNotNL <==> re.Sub[w].Sub[0].Op == 5) && ((w == len(re.Sub) - 3 && info.CharClassTable == nil) || (w == len(re.Sub) - 4 && isBytePlus(re.Sub[w+1]) && info.CharClassTable != nil && tableOf(*info.CharClassTable, re.Sub[w+1].Sub[0]))) && (w == 1 ==> len(info.Prefix) == 0) && (w == 2 ==> litBytes(info.Prefix, re.Sub[1]))
+//@ spec func alEnds2(re *syntax.Regexp, info *AnchoredLiteralInfo) bool = re.Op == 18 && len(re.Sub) >= 4 && (re.Sub[0].Op == 9 || re.Sub[0].Op == 7) && (re.Sub[len(re.Sub)-1].Op == 10 || re.Sub[len(re.Sub)-1].Op == 8) && isLit(re.Sub[len(re.Sub)-2]) && litBytes(info.Suffix, re.Sub[len(re.Sub)-2])
+//@ spec func alAllShape(re *syntax.Regexp, info *AnchoredLiteralInfo) bool = forall w :: 1 <= w && w < len(re.Sub) - 2 && isWild(re.Sub[w]) ==> alShape(re, w, info)
 //@ func DetectAnchoredLiteral
 //@   props C19
-//@   requires astOK(re)
+//@   requires re != nil
+//@   assume astOK(re)
 //@   ensures result != nil ==> fresh(result) && alInfoOK(result)
-//@   ensures result != nil ==> re.Op == 18 && len(re.Sub) >= 4 && (re.Sub[0].Op == 9 || re.Sub[0].Op == 7) && (re.Sub[len(re.Sub)-1].Op == 10 || re.Sub[len(re.Sub)-1].Op == 8) && isLit(re.Sub[len(re.Sub)-2]) && litBytes(result.Suffix, re.Sub[len(re.Sub)-2])
+//@   ensures result != nil ==> alEnds2(re, result)
 //@   ensures result != nil ==> (exists w :: 1 <= w && w < len(re.Sub) - 2 && isWild(re.Sub[w]))
-//@   ensures result != nil ==> (forall w :: 1 <= w && w < len(re.Sub) - 2 && isWild(re.Sub[w]) ==> alShape(re, w, result))
+//@   ensures result != nil ==> alAllShape(re, result)
 //@   loop 1: invariant 1 <= i && i <= suffixIdx && suffixIdx == len(subs) - 2 && sameslice(subs, re.Sub) && suffix != nil && fresh(suffix) && isLit(subs[suffixIdx]) && litBytes(suffix, subs[suffixIdx])
 //@   loop 1: invariant (prefix == nil || (fresh(prefix) && base(prefix) != base(suffix))) && (charClassTable == nil || fresh(charClassTable))
 //@   loop 1: invariant wildcardIdx == -1 || (1 <= wildcardIdx && wildcardIdx < i && isWild(subs[wildcardIdx]))
@@ -302,3 +313,8 @@ package meta
 //@   requires e != nil && alInfoOK(e.anchoredLiteralInfo)
 //@   ensures result != nil <==> alMatch(haystack, e.anchoredLiteralInfo)
 //@   ensures result != nil ==> fresh(result) && result.start == 0 && result.end == len(haystack) && sameslice(result.haystack, haystack)
+
+// a missing prefilter stays missing: anchors only wrap an existing one
+//@ func adjustForAnchors
+//@   props C17
+//@   ensures pf == nil ==> result0 == nil
